@@ -739,6 +739,71 @@ func runC18(r *Run) {
 		r.Bad("R8", "anchor/BuildTx", "", "not found")
 	}
 
+	// ---------- R10: unwrap by hash; message-level fee getters delegate ----------
+	r.Rule("R10", "PATH.unwrap-returns-the-asked-transaction + SHAPE.fee-getters-delegate: UnwrapEthereumMsg(tx, hash) returns a message only over the edge on which that message's recomputed transaction hash (AsTransaction().Hash()) equals the requested hash — no fast path that hands out the only message of an envelope for any hash; MsgEthereumTx.GetFee / GetEffectiveFee / GetGas return the tx data's own figure (Fee(), EffectiveFee(baseFee), GetGas()) on every non-nil path, with no branch on the base fee — a zero base fee is a base fee, not 'none'")
+	if uw, ok := P.FnOK(evmTypes + ".UnwrapEthereumMsg"); ok {
+		var hashP *ssa.Parameter
+		for _, p := range uw.Params {
+			if namedName(p.Type()) == "Hash" {
+				hashP = p
+			}
+		}
+		eq, _ := condEdges(uw, func(x, y ssa.Value) bool {
+			isAsked := func(v ssa.Value) bool { return hashP != nil && backSlice(v).Has(hashP) }
+			isOwn := func(v ssa.Value) bool {
+				return backSlice(v).HasCall(func(g CallInfo) bool { return g.Name == "Hash" }) && backSlice(v).HasCall(func(g CallInfo) bool { return g.Name == "AsTransaction" })
+			}
+			return isAsked(x) && isOwn(y) || isAsked(y) && isOwn(x)
+		})
+		w := PathQuery{Fn: uw, Target: func(in ssa.Instruction) bool {
+			ret, ok := in.(*ssa.Return)
+			if !ok || classifyExit(ret) == ExitFailure {
+				return false
+			}
+			return !isNilConst(stripValue(retOperands(ret)[0]))
+		}, DelEdge: edgeSet(eq)}.Search()
+		r.Check(w == nil && len(eq) > 0, "R10", fnID(uw)+"#returns-the-asked-transaction", P.Pos(fnPos(uw)), "a message is returned only where its own hash equals the requested one",
+			"UnwrapEthereumMsg can hand out a message whose transaction hash was not compared with the requested hash: the caller gets a different transaction than the one it asked for (eth_getTransactionByHash answering an unknown hash with the first pending transaction)", P.witness(w)...)
+	} else {
+		r.Bad("R10", "anchor/UnwrapEthereumMsg", "", "not found")
+	}
+	for _, g := range []struct{ name, callee string }{{"GetFee", "Fee"}, {"GetEffectiveFee", "EffectiveFee"}, {"GetGas", "GetGas"}} {
+		fn, ok := P.FnOK("(" + evmTypes + ".MsgEthereumTx)." + g.name)
+		if !ok {
+			r.Bad("R10", "anchor/MsgEthereumTx."+g.name, "", "not found")
+			continue
+		}
+		okAll, nRet := true, 0
+		eachInstr(fn, func(in ssa.Instruction) {
+			ret, isR := in.(*ssa.Return)
+			if !isR || len(ret.Results) == 0 {
+				return
+			}
+			v := stripValue(ret.Results[0])
+			if c, isC := v.(*ssa.Const); isC && (c.Value == nil || c.Value.ExactString() == "0") {
+				return // the unpack-failure answer
+			}
+			nRet++
+			c, isC := v.(*ssa.Call)
+			if !isC || callInfo(c).Name != g.callee {
+				okAll = false
+			}
+		})
+		onParam := false
+		for _, b := range fn.Blocks {
+			if ifi, isIf := lastIf(b); isIf {
+				backSlice(ifi.Cond).Any(func(v ssa.Value) bool {
+					if p, ok := v.(*ssa.Parameter); ok && p.Name() == "baseFee" {
+						onParam = true
+					}
+					return onParam
+				})
+			}
+		}
+		r.Check(okAll && nRet >= 1 && !onParam, "R10", fnID(fn)+"#delegates", P.Pos(fnPos(fn)), "returns txData."+g.callee+"(…) itself, no branch on the base fee",
+			"the message-level getter does not simply return the tx data's "+g.callee+"(): for some inputs (a zero base fee) the figure derived from the message differs from the one go-ethereum derives from the original transaction")
+	}
+
 	// ---------- R9: the 256-bit bound admits the all-ones word ----------
 	r.Rule("R9", "SHAPE.bound-admits-max-uint256: IsValidInt256 — the bound every amount field passes when an Ethereum transaction is wrapped and validated — accepts exactly the values of at most 256 bits: its comparison is BitLen() <= 256 (or the same class: > 256, < 257, >= 257; or CmpAbs(MaxBig256) <= 0 and its class) — an exclusive bound rejects 2^256-1, a value every field may legally hold")
 	if iv, ok := P.FnOK("types.IsValidInt256"); ok {
